@@ -189,6 +189,23 @@ def x_roundtrip(ctx, case):
         if got != t:
             return True
         ctx.check(b"".join(c.iter_bytes()) == t.encode("utf8"), "roundtrip.text-bytes")
+        if t and "\x00" not in t and not any(0xD800 <= ord(ch) <= 0xDFFF for ch in t):
+            # the same text as the REASON of a plain unittest-style skip, on its way through the stream protocol: the
+            # consumer's 'reason' content decodes, in the charset it declares, to the text that was given
+            import testtools
+            got_dicts = []
+            e2s = testtools.ExtendedToStreamDecorator(testtools.StreamToDict(got_dicts.append))
+            try:
+                e2s.startTestRun()
+                ph = testtools.PlaceHolder("skipped")
+                e2s.startTest(ph)
+                e2s.addSkip(ph, t)
+                e2s.stopTest(ph)
+                e2s.stopTestRun()
+                back = got_dicts[0]["details"]["reason"].as_text()
+            except Exception as e:  # noqa
+                back = "reading the reason raised %r" % (e,)
+            ctx.check(back == t, "roundtrip.text", lambda: {"a skip reason through ExtendedToStreamDecorator": back})
         ctx.check("".join(c.iter_text()) == t, "roundtrip.iter_text")
         # evaluating twice yields the same
         ctx.check(b"".join(c.iter_bytes()) == b"".join(c.iter_bytes()), "roundtrip.repeatable")
